@@ -19,6 +19,10 @@ var coldFirst = map[string]func(){
 	"marshaltext":      func() { _, _ = size.Size(1000).MarshalText() },
 	"marshaljson":      func() { _, _ = size.Size(1024).MarshalJSON() },
 	"parse":            func() { _, _ = size.DefaultParser("1 KiB", 0) },
+	"string of 2^64-1": func() { _ = size.Size(1<<64 - 1).String() },
+	"pretty of 2^64-1": func() { _ = size.Size(1<<64 - 1).PrettyString() },
+	"string of zero":   func() { _ = size.Size(0).String() },
+	"pretty of 2^63":   func() { _ = size.Size(1 << 63).PrettyString() },
 }
 
 func TestColdStart(t *testing.T) {
